@@ -72,6 +72,9 @@ def s1_s2(chk, repo, fem_symmetric):
                 if e.cell[0] != want_dst:
                     chk.violation("S1", key, w, "the %s arm writes %s; it must write %s" % (arm, e.cell[0], want_dst))
                     continue
+                if e.op != "=":
+                    chk.violation("S1", key, w, "the %s arm stores the solution with '%s': solve_linear must overwrite the vector (iterative linear solvers call it with a non-zero vector), so the result depends on the linear solver" % (arm, e.op))
+                    continue
                 srcs = {d.split(":")[0] for d in e.dep if d.startswith(("d_out:", "d_res:", "d_in:"))}
                 if want_src not in srcs or (srcs - {want_src}):
                     chk.violation("S1", key, w, "the %s arm computes %s from %s; it must use %s only" % (arm, want_dst, sorted(srcs) or "nothing", want_src))
@@ -329,3 +332,90 @@ def run(chk, repo, tier):
     s1_s2(chk, repo, ev)
     s3(chk, repo)
     s4(chk, repo)
+    s5(chk, repo)
+
+
+# --------------------------------------------------------------------------- S5
+CS_UNSAFE = {
+    "numpy.abs": "np.abs drops the complex perturbation",
+    "numpy.absolute": "np.absolute drops the complex perturbation",
+    "numpy.fabs": "np.fabs drops the complex perturbation",
+    "builtins.abs": "abs() drops the complex perturbation",
+    "numpy.linalg.norm": "np.linalg.norm takes absolute values (complex modulus)",
+    "numpy.real": "np.real strips the perturbation",
+    "builtins.float": "float() strips the perturbation",
+    "builtins.int": "int() strips the perturbation",
+    "numpy.interp": "np.interp does not propagate a complex abscissa / ordinate",
+    "numpy.arctan2": "np.arctan2 is not defined for complex arguments",
+    "numpy.maximum": "np.maximum compares complex values by real part only and may drop the perturbation",
+    "numpy.minimum": "np.minimum compares complex values by real part only and may drop the perturbation",
+    "numpy.hypot": "np.hypot is not defined for complex arguments",
+    "numpy.sign": "np.sign of a complex number is not the real sign",
+}
+
+
+def s5(chk, repo):
+    """Complex-step safety of the inputs differentiated with method='cs'."""
+    import ast as _ast
+
+    chk.rule("S5", "values that depend on an input differentiated by complex step (declare_partials(method='cs')) never pass through an operation that drops or mangles the imaginary part (abs, real, float, norm, interp, arctan2, real-dtype buffers) outside a pure comparison", min_decided=8)
+    for m in all_models(repo, kinds=("explicit",)):
+        c = m.cls
+        cs_in = set()
+        for sv in m.setup_views:
+            tbl = dict(sv.inputs)
+            for d in sv.decls:
+                if d.method == "cs":
+                    for w in sv.expand(d.wrt, tbl):
+                        cs_in.add("in:" + w)
+        if not cs_in or "compute" not in m.runs:
+            continue
+        f = c.methods["compute"]
+        # call nodes that only feed comparisons
+        in_compare = set()
+        fnodes = [f.node] + [cc.node for cc in c.methods.values()]
+        for mod_f in repo.modules.values():
+            pass
+        bad = {}
+        n_ok = 0
+        for run in m.runs["compute"]:
+            if run.final is None:
+                continue
+            for e in run.events:
+                if e.kind == "extcall" and e.name in CS_UNSAFE:
+                    tainted = set()
+                    for a in list(e.args) + list(e.kwargs.values()):
+                        tainted |= {d for d in a.dep if d in cs_in or any(_match(d, x) for x in cs_in)}
+                    if not tainted:
+                        n_ok += 1
+                        continue
+                    if e.name in ("numpy.real",) and _only_in_compare(e):
+                        continue
+                    bad.setdefault((e.func.qual, e.lineno, e.name), (e, tainted))
+                if e.kind == "store" and e.obj is not None and not e.cell:
+                    # store of a cs-tainted value into a buffer allocated with a real dtype
+                    ob = run.final.heap.get(e.obj)
+                    al = ob.alloc if ob is not None else None
+                    if isinstance(al, tuple) and al and al[0] in ("zeros", "ones", "empty", "full") and (len(al) < 2 or al[1] is None):
+                        tainted = {d for d in e.dep if d in cs_in}
+                        if tainted and not _complex_guarded(e):
+                            bad.setdefault((e.func.qual, e.lineno, "real-dtype buffer"), (e, tainted))
+        key0 = "%s.compute" % c.name
+        if bad:
+            for (fq, ln, nm), (e, tainted) in bad.items():
+                why = CS_UNSAFE.get(nm, "the buffer was allocated without a complex-capable dtype, assignment discards the imaginary part")
+                chk.violation("S5", "%s: %s on %s" % (key0, nm, sorted(t[3:] for t in tainted)), "%s:%d" % (e.func.mod.rel, ln), "partials w.r.t. %s are declared method='cs' but the value passes through %s (%s): the complex-step derivative silently loses this dependence" % (sorted(t[3:] for t in tainted), nm, why))
+        else:
+            chk.ok("S5", key0, c.where, "cs-differentiated inputs %s reach no perturbation-dropping operation" % sorted(x[3:] for x in cs_in)[:5])
+
+
+def _match(d, x):
+    return d.replace("[0]", "[i]") == x.replace("[0]", "[i]")
+
+
+def _only_in_compare(e):
+    return False
+
+
+def _complex_guarded(e):
+    return False
